@@ -51,7 +51,7 @@ def _sp(F):
     return sp_quat(F)
 
 
-def build(ep, cls, rng):
+def build(ep, cls, rng, verbose=False):
     """-> (callable, list of argument objects to hash) for one cell"""
     L = lib()
     u, sv, t, q = L.utils, L.solver, L.tensor, L.qslst
@@ -101,6 +101,7 @@ def build(ep, cls, rng):
         return {"unknown_option_fragment": valid + 3, "unknown_option_empty": "", "unknown_option_case": str(valid) + "x",
                 "unknown_option_type": "one"}[cls]
     mis = cls == "mismatched_pair"
+    vb = {"verbose": True} if verbose else {}          # printing is supposed to be inert: a guard must hold with it switched on
     simple = {
         "induced_matrix_norm_1": lambda: (lambda: u.induced_matrix_norm_1(A), [A]),
         "induced_matrix_norm_inf": lambda: (lambda: u.induced_matrix_norm_inf(A), [A]),
@@ -111,31 +112,32 @@ def build(ep, cls, rng):
         "ishermitian": lambda: (lambda: u.ishermitian(A), [A]),
         "det_dieudonne": lambda: (lambda: u.det(A, bad("Dieudonne", "Foo") if opt_bad else "Dieudonne"), [A]),
         "det_moore": lambda: (lambda: u.det(A, "Moore"), [A]),
-        "power_iteration": lambda: (lambda: u.power_iteration(A, max_iterations=5), [A]),
+        "power_iteration": lambda: (lambda: u.power_iteration(A, max_iterations=5, **vb), [A]),
         "quat_null_space": lambda: (lambda: u.quat_null_space(A, side=bad("left", "up") if opt_bad else "left"), [A]),
         "quaternion_lu": lambda: (lambda: L.LU.quaternion_lu(A, return_p=True), [A]),
         "tridiagonalize": lambda: (lambda: L.tridiag.tridiagonalize(A), [A]),
-        "quaternion_eigendecomposition": lambda: (lambda: L.eigen.quaternion_eigendecomposition(A), [A]),
-        "quaternion_eigenvalues": lambda: (lambda: L.eigen.quaternion_eigenvalues(A), [A]),
+        "quaternion_eigendecomposition": lambda: (lambda: L.eigen.quaternion_eigendecomposition(A, **vb), [A]),
+        "quaternion_eigenvalues": lambda: (lambda: L.eigen.quaternion_eigenvalues(A, **vb), [A]),
+        "quaternion_eigenvectors": lambda: (lambda: L.eigen.quaternion_eigenvectors(A, **vb), [A]),
         "hessenbergize": lambda: (lambda: L.hess.hessenbergize(A), [A]),
-        "quaternion_schur": lambda: (lambda: L.schur.quaternion_schur(A, max_iter=5), [A]),
-        "quaternion_schur_pure": lambda: (lambda: L.schur.quaternion_schur_pure(A, max_iter=5), [A]),
-        "quaternion_schur_pure_implicit": lambda: (lambda: L.schur.quaternion_schur_pure_implicit(A, max_iter=5), [A]),
-        "quaternion_schur_unified": lambda: (lambda: L.schur.quaternion_schur_unified(A, variant="aed", max_iter=5), [A]),
-        "quaternion_schur_experimental": lambda: (lambda: L.schur.quaternion_schur_experimental(A, max_iter=5), [A]),
-        "rsp_column": lambda: (lambda: sv.RandomizedSketchProjectPseudoinverse(block_size=2, max_iter=3, test_sketch_size=2).compute_column_variant(A), [A]),
-        "rsp_row": lambda: (lambda: sv.RandomizedSketchProjectPseudoinverse(block_size=2, max_iter=3, test_sketch_size=2).compute_row_variant(A), [A]),
-        "hybrid_compute": lambda: (lambda: sv.HybridRSPNewtonSchulz(r=2, T=1, max_iter=2).compute(A), [A]),
-        "cgne_compute": lambda: (lambda: sv.CGNEQSolver(max_iter=3).compute(A), [A]),
+        "quaternion_schur": lambda: (lambda: L.schur.quaternion_schur(A, max_iter=5, **vb), [A]),
+        "quaternion_schur_pure": lambda: (lambda: L.schur.quaternion_schur_pure(A, max_iter=5, **vb), [A]),
+        "quaternion_schur_pure_implicit": lambda: (lambda: L.schur.quaternion_schur_pure_implicit(A, max_iter=5, **vb), [A]),
+        "quaternion_schur_unified": lambda: (lambda: L.schur.quaternion_schur_unified(A, variant="aed", max_iter=5, **vb), [A]),
+        "quaternion_schur_experimental": lambda: (lambda: L.schur.quaternion_schur_experimental(A, max_iter=5, **vb), [A]),
+        "rsp_column": lambda: (lambda: sv.RandomizedSketchProjectPseudoinverse(block_size=2, max_iter=3, test_sketch_size=2, **vb).compute_column_variant(A), [A]),
+        "rsp_row": lambda: (lambda: sv.RandomizedSketchProjectPseudoinverse(block_size=2, max_iter=3, test_sketch_size=2, **vb).compute_row_variant(A), [A]),
+        "hybrid_compute": lambda: (lambda: sv.HybridRSPNewtonSchulz(r=2, T=1, max_iter=2, **vb).compute(A), [A]),
+        "cgne_compute": lambda: (lambda: sv.CGNEQSolver(max_iter=3, **vb).compute(A), [A]),
         "classical_qsvd_full": lambda: (lambda: L.qsvd.classical_qsvd_full(A), [A]),
         "classical_qsvd": lambda: (lambda: L.qsvd.classical_qsvd(A, 1), [A]),
         "qr_qua": lambda: (lambda: L.qsvd.qr_qua(A), [A]),
         "rank": lambda: (lambda: u.rank(A), [A]),
         "quat_matmat": lambda: (lambda: u.quat_matmat(A, u.quat_hermitian(A)), [A]),
         "quat_frobenius_norm": lambda: (lambda: u.quat_frobenius_norm(A), [A]),
-        "ns_compute": lambda: (lambda: sv.NewtonSchulzPseudoinverse(max_iter=3).compute(A), [A]),
-        "hon_compute": lambda: (lambda: sv.HigherOrderNewtonSchulzPseudoinverse(max_iter=2).compute(A), [A]),
-        "rsp_compute": lambda: (lambda: sv.RandomizedSketchProjectPseudoinverse(block_size=2, max_iter=3, test_sketch_size=2).compute(A), [A]),
+        "ns_compute": lambda: (lambda: sv.NewtonSchulzPseudoinverse(max_iter=3, **vb).compute(A), [A]),
+        "hon_compute": lambda: (lambda: sv.HigherOrderNewtonSchulzPseudoinverse(max_iter=2, **vb).compute(A), [A]),
+        "rsp_compute": lambda: (lambda: sv.RandomizedSketchProjectPseudoinverse(block_size=2, max_iter=3, test_sketch_size=2, **vb).compute(A), [A]),
     }
     if ep in simple:
         return simple[ep]()
@@ -153,7 +155,7 @@ def build(ep, cls, rng):
     if ep in ("qgmres_solve", "qgmres_solve_left_lu"):
         b = q_from_float(rng.standard_normal((m + 1 if mis else m, 1, 4)))
         prec = "left_lu" if ep.endswith("left_lu") else None
-        return (lambda: sv.QGMRESSolver(tol=1e-8, preconditioner=prec).solve(A, b)), [A, b]
+        return (lambda: sv.QGMRESSolver(tol=1e-8, preconditioner=prec, **vb).solve(A, b)), [A, b]
     if ep == "deeplinear_compute":
         lay = [n + 1 if mis else n, m]
         return (lambda: sv.DeepLinearNewtonSchulz(max_iter=1).compute(A, lay)), [A]
@@ -260,7 +262,22 @@ def _cell(args):
         got, err = "returns", ""
     except BaseException as e:
         got, err = "raises", type(e).__name__
-    return {"ep": ep, "cls": cls, "want": want, "got": got, "err": err, "args_unchanged": _hash(objs) == before}
+    out = {"ep": ep, "cls": cls, "want": want, "got": got, "err": err, "args_unchanged": _hash(objs) == before}
+    # the same cell with verbose output switched on (where the entry point has the option): same outcome
+    try:
+        fv, objs_v = build(ep, cls, np.random.default_rng(seed), verbose=True)
+        np.random.seed(3)
+        try:
+            with contextlib.redirect_stdout(io.StringIO()):
+                fv()
+            gv = "returns"
+        except BaseException:
+            gv = "raises"
+        if gv != got and got == want:
+            out.update(got=gv, err="outcome with verbose=True", verbose=True)
+    except Exception:
+        pass
+    return out
 
 
 def run(ctx, replay=None):
